@@ -59,7 +59,13 @@ pub fn execute(s: &StatScn) -> RunOutcome {
     let res = (|| -> Result<(), Violation> {
         let ticks = [1u32, 1, 1, 1];
         let mut env_a = guard(|| new_env(false, 1, 10, 0, &ticks, 1000, true)).map_err(|m| mk("panic", 0, "construction", "no abort".into(), m))?;
-        let mut env_b = guard(|| new_env(s.market_b, s.assets_b, if s.market_b { 3 } else { 5 }, 7, &ticks, 1000, true)).map_err(|m| mk("panic", 0, "construction", "no abort".into(), m))?;
+        // environment B differs in everything the order must not depend on: kind, assets, start time, instruction mix,
+        // and (a quarter of the runs) it is halted: halted or not, the batch is shuffled by the generator
+        let halted_b = s.seed % 4 == 0;
+        let mut env_b = guard(|| new_env(s.market_b, s.assets_b, if s.market_b { 3 } else { 5 }, 7, &ticks, 1000, !halted_b)).map_err(|m| mk("panic", 0, "construction", "no abort".into(), m))?;
+        if halted_b {
+            stats.probe("environment_b_halted");
+        }
         let mut rng_a = SeamRng::passthrough(s.seed);
         let mut rng_b = SeamRng::passthrough(s.seed);
         let mut h = SimRng::new(s.seed ^ 0xABCD);
@@ -91,7 +97,26 @@ pub fn execute(s: &StatScn) -> RunOutcome {
             let mut kinds: Vec<bool> = (0..n).map(|k| k < n_cancel).collect(); // true = cancel
             h.shuffle(&mut kinds);
             let mut items: Vec<(usize, usize, bool)> = vec![];
-            for is_cancel in kinds {
+            // at most one instruction per batch whose position leaves no trace (a cancel / modify of an order placed in
+            // the same batch, when processed before the placement): its position is the one nobody else took
+            let mut same_step: Option<usize> = if n >= 3 && h.chance(0.3) { Some(h.usize(n - 1)) } else { None };
+            let mut blind: Option<usize> = None; // index into items
+            for (slot, is_cancel) in kinds.into_iter().enumerate() {
+                if let (Some(at), Some(&(a, id, false))) = (same_step, items.last()) {
+                    if slot > at {
+                        // aimed at the order submitted just before it
+                        if h.chance(0.5) {
+                            env_b.cancel(a, id);
+                        } else {
+                            env_b.modify(a, id, Some(45), None);
+                        }
+                        blind = Some(items.len());
+                        items.push((a, id, true));
+                        same_step = None;
+                        stats.probe("same_step_cancel_or_modify");
+                        continue;
+                    }
+                }
                 if is_cancel {
                     let (a, id) = pool.swap_remove(h.usize(pool.len()));
                     env_b.cancel(a, id);
@@ -109,8 +134,12 @@ pub fn execute(s: &StatScn) -> RunOutcome {
             }
             let ob: Vec<Vec<OOrder>> = (0..s.assets_b).map(|a| env_b.env_orders(a)).collect();
             let mut perm_b = vec![];
-            for (a, id, is_cancel) in &items {
+            for (k, (a, id, is_cancel)) in items.iter().enumerate() {
                 let o = &ob[*a][*id];
+                if blind == Some(k) {
+                    perm_b.push(usize::MAX); // filled in below
+                    continue;
+                }
                 if *is_cancel {
                     if o.status != CANCELLED {
                         return Err(mk("no-schedule-explains", step, "cancelled order", "Cancelled".into(), format!("{:?}", o)));
@@ -121,6 +150,20 @@ pub fn execute(s: &StatScn) -> RunOutcome {
                     if o.status == ACTIVE {
                         pool.push((*a, *id));
                     }
+                }
+            }
+            if let Some(k) = blind {
+                // the untraceable instruction took the one position nobody else has
+                let mut free: Vec<usize> = (0..n).filter(|p| !perm_b.contains(p)).collect();
+                if free.len() != 1 {
+                    return Err(mk("no-schedule-explains", step, "positions (B)", format!("a permutation of 0..{}", n), format!("{:?}", perm_b)));
+                }
+                perm_b[k] = free.pop().unwrap();
+                // the order it was aimed at may have been cancelled / re-priced by it: keep the pool consistent
+                let (a, id, _) = items[k];
+                pool.retain(|x| *x != (a, id));
+                if ob[a][id].status == ACTIVE {
+                    pool.push((a, id));
                 }
             }
             for (name, p) in [("A", &perm_a), ("B", &perm_b)] {
